@@ -544,8 +544,8 @@ func nameTableRace(sink *trace.Sink, rounds int) (written int, anomalous int) {
 	pm := frpproxy.NewManager()
 	type ev struct {
 		ev, name, owner string
-		ok            bool
-		seq           int64
+		ok              bool
+		seq             int64
 	}
 	var mu sync.Mutex
 	var cur []ev
